@@ -21,7 +21,10 @@ Table == [Listen |-> Opt(1, <<"int">>, "str", 0, 0),
           Mix    |-> Opt(-1, <<"bool", "int">>, "float", 0, 0),
           Pair   |-> Opt(2, <<>>, "str", 0, 0),
           Five   |-> Opt(5, <<"int", "", "float", "int", "bool">>, "str", 0, 0),
-          Many   |-> Opt(-1, <<>>, "bool", 0, 0)]
+          Many   |-> Opt(-1, <<>>, "bool", 0, 0),
+          Quiet  |-> Opt(1, <<>>, "str", 0, 0),      \* registered without a callback of its own
+          Fail   |-> Opt(1, <<>>, "str", 0, 0)]      \* its callback reports an error when the argument is "bad"
+NoCb == {"Quiet"}
 Known == DOMAIN Table
 \* a line: [t, name (canonical), alt (rendered in other case), shown (argv0 as rendered), args: Seq([txt, kind])]
 \* kinds: "int", "float", "bool1", "bool0", "int1" (the token 1), "int0" (the token 0), "str"
@@ -49,13 +52,19 @@ CurSec(st) == IF st.stack = <<>> THEN 1 ELSE st.stack[Len(st.stack)].sid
 CurSecs(st) == IF st.stack = <<>> THEN 1 ELSE st.stack[Len(st.stack)].childsecs
 Parents(st) == [i \in 1..Len(st.stack) |-> st.stack[Len(st.stack) + 1 - i].shown]
 Fail(st) == [st EXCEPT !.err = st.ln + 1, !.ln = st.ln + 1]
-StepLine(st, line, ci, ignore) ==
+StepLine(st, line, ci, ignore, defh) ==
   IF st.err # 0 THEN st
   ELSE LET found == line.name \in Known /\ (~line.alt \/ ci)
            top == IF st.stack = <<>> THEN [name |-> "", alt |-> FALSE] ELSE st.stack[Len(st.stack)]
            closeOK == st.stack # <<>> /\ top.name = line.name /\ (ci \/ top.alt = line.alt)
        IN
        IF line.t = "close" /\ ~closeOK THEN Fail(st)
+       ELSE IF ~found /\ defh /\ line.t = "opt" THEN
+            \* an unregistered option line goes to the default handler, arguments as written
+            [st EXCEPT !.cbs = Append(@, [otype |-> 0, shown |-> line.shown, section |-> CurSec(st), sections |-> CurSecs(st),
+                                           level |-> Len(st.stack), args |-> [j \in 1..Len(line.args) |-> line.args[j].txt],
+                                           parents |-> Parents(st), h |-> "def", ud |-> TRUE]),
+                       !.count = @ + 1, !.ln = @ + 1]
        ELSE IF ~found THEN
             IF ignore THEN [st EXCEPT !.count = @ + 1, !.ln = @ + 1,
                                       !.stack = IF line.t = "close" THEN SubSeq(@, 1, Len(@) - 1) ELSE @]
@@ -63,21 +72,27 @@ StepLine(st, line, ci, ignore) ==
        ELSE LET o == Table[line.name] IN
             IF line.t = "close" THEN
                [st EXCEPT !.cbs = Append(@, [otype |-> 2, shown |-> top.shown, section |-> top.section, sections |-> top.sections,
-                                              level |-> Len(st.stack) - 1, args |-> top.args, parents |-> Tail(Parents(st))]),
+                                              level |-> Len(st.stack) - 1, args |-> top.args, parents |-> Tail(Parents(st)),
+                                              h |-> "cb", ud |-> TRUE]),
                           !.stack = SubSeq(@, 1, Len(@) - 1), !.count = @ + 1, !.ln = @ + 1]
             ELSE IF o.secs # 0 /\ BitAnd(o.secs, CurSec(st)) = 0 THEN Fail(st)
             ELSE LET ca == CheckArgs(o, line.args) IN
                  IF ~ca[1] THEN Fail(st)
                  ELSE LET cb == [otype |-> IF line.t = "open" THEN 1 ELSE 0, shown |-> line.shown, section |-> CurSec(st),
-                                 sections |-> CurSecs(st), level |-> Len(st.stack), args |-> ca[2], parents |-> Parents(st)]
-                      IN [st EXCEPT !.cbs = Append(@, cb), !.count = @ + 1, !.ln = @ + 1,
+                                 sections |-> CurSecs(st), level |-> Len(st.stack), args |-> ca[2], parents |-> Parents(st),
+                                 h |-> IF line.name \in NoCb THEN "def" ELSE "cb", ud |-> TRUE]
+                          called == line.name \notin NoCb \/ defh
+                      IN IF called /\ line.name = "Fail" /\ ca[2] = <<"bad">>
+                         THEN [Fail(st) EXCEPT !.cbs = Append(@, cb)]        \* the callback ran, then its error message stops the parse
+                         ELSE
+                         [st EXCEPT !.cbs = IF called THEN Append(@, cb) ELSE @, !.count = @ + 1, !.ln = @ + 1,
                                     !.stack = IF line.t = "open"
                                               THEN Append(@, [name |-> line.name, alt |-> line.alt, shown |-> line.shown, sid |-> o.sid,
                                                               childsecs |-> BitOr(CurSecs(st), o.sid), section |-> CurSec(st),
                                                               sections |-> CurSecs(st), args |-> ca[2]])
                                               ELSE @]
 Expect(doc) ==
-  LET fin == FoldLeft(LAMBDA st, line : StepLine(st, line, doc.ci, doc.ignore), S0, doc.lines)
+  LET fin == FoldLeft(LAMBDA st, line : StepLine(st, line, doc.ci, doc.ignore, doc.defh), S0, doc.lines)
       fin2 == IF fin.err = 0 /\ fin.stack # <<>> THEN [fin EXCEPT !.err = Len(doc.lines)] ELSE fin   \* unclosed section: reported at the last line
   IN [ret |-> IF fin2.err = 0 THEN fin2.count ELSE -1, errline |-> fin2.err, cbs |-> fin2.cbs]
 =============================================================================
